@@ -9,6 +9,8 @@ spec -> code : TLC emits the required value of every function for every basis fi
                real circulation_along_curve, circulation_along_surface_boundary, flux_across_curve,
                flux_across_surface_boundary, flux_across_surface (six faces of a box) and flux_across_volume_boundary
                with the standard parametrisation, re-timed ones, the reversed one and (circulation) a curved surface
+               (the polynomial graph of Integrals!Graph, on which TLC checks Stokes' theorem in the model), the field also
+               given with its trailing zero components omitted (1 or 2 components, possibly depending on z);
                spanned by the same curve.  Every result must be a NUMBER free of coordinate / parameter symbols and
                equal the model's exact value (compared as rational + rational*pi).
                Regions include parameter domains with dependent limits (triangles; tetrahedra with
@@ -44,6 +46,7 @@ TIERS = {
                             dict(D=3, MaxDeg=2, MaxTerms=2, EmitDeg=2, EmitTerms=2, Regions="<-RegionsPairs")],
                      curved=True),
 }
+CURVED_MODEL = dict(D=4, MaxDeg=2, MaxTerms=1, EmitDeg=0, EmitTerms=0, Regions="<-RegionsCurved")
 MODEL_INVARIANTS = ["ITypeOK", "Stokes", "Green", "Gauss", "GaussNative", "ReverseNegates", "SpeedCancels", "DivCurlZero"]
 TRACE_D = 3
 CALL_LIMIT = 60
@@ -306,7 +309,6 @@ def replay_case(case):
     reg = case["reg"]
     comps3 = fc.basis_terms(case["terms"]) if case["terms"] else [[], [], []]
     field3 = make_field(comps3)
-    curved = case.get("curved", False)
     if reg["k"] == "box":
         for variant in ("std", "retime", "rev"):
             exp = case["flux3rev"] if variant == "rev" else case["flux3"]
@@ -331,7 +333,7 @@ def replay_case(case):
         system, lims = curv_limits(reg)
         # the spherical re-expression makes simplify slow and memory-hungry: thorough, fields of degree <= 1 only
         small = len(case["terms"]) <= 1 and all(sum(t["e"]) <= 1 for t in case["terms"])
-        if system == "cyl" or (case.get("curved") and small):
+        if system == "cyl" or (case.get("thorough") and small):
             fieldc = make_curv_field(system, comps3)
             _run(out, "flux_across_volume_boundary", "flux3", comps3, reg, f"{system} system, re-expressed field", False,
                  case["flux3"], [lambda: an.flux_across_volume_boundary(fieldc, *lims)])
@@ -347,11 +349,22 @@ def replay_case(case):
         _run(out, "circulation_along_curve", "circ", comps3, reg, variant, variant == "rev", exp,
              [lambda tr=tr, lim=lim: an.circulation_along_curve(field3, tr, lim)
               for tr, lim in curve(reg, variant, planar2d)])
-    for variant in ("std", "retime", "rev") + extra + (("curved",) if curved else ()):
+    for variant in ("std", "retime", "rev", "curved") + extra:
         exp = case["circrev"] if variant == "rev" else case["circ"]
         surf, p1, p2 = surface(reg, variant, in_plane0 and variant == "std")
         _run(out, "circulation_along_surface_boundary", "circ", comps3, reg, variant, variant == "rev", exp,
              [lambda: an.circulation_along_surface_boundary(field3, surf, p1, p2)])
+    # the same field given with its trailing zero components omitted (it may still depend on z)
+    used = max([i + 1 for i, c in enumerate(comps3) if c] or [1])
+    if used < 3:
+        short = comps3[:used]
+        field_s = make_field(short)
+        _run(out, "circulation_along_curve", "circ", short, reg, f"std, {used}-component field", False, case["circ"],
+             [lambda tr=tr, lim=lim: an.circulation_along_curve(field_s, tr, lim) for tr, lim in curve(reg, "std", False)])
+        for variant in ("std", "curved"):
+            surf, p1, p2 = surface(reg, variant, False)
+            _run(out, "circulation_along_surface_boundary", "circ", short, reg, f"{variant}, {used}-component field",
+                 False, case["circ"], [lambda: an.circulation_along_surface_boundary(field_s, surf, p1, p2)])
     # outward flux across the closed planar curve, and from the divergence over the enclosed region
     if case.get("planar") == 1:
         comps2 = comps3[:2]
@@ -566,6 +579,12 @@ def main() -> int:
             run.add_tlc(res, f"model check Integrals: {MODEL_INVARIANTS} on (vector fields: sums of <= "
                              f"{model['MaxTerms']} basis monomials of degree <= {model['MaxDeg']}) x "
                              f"({model['Regions'][2:]})")
+        cfgc = write_cfg(sc / "int_curved.cfg", init="IInit", next_="INext", constants=CURVED_MODEL,
+                         invariants=["CurvedStokes"])
+        resc = run_tlc("Integrals", cfgc, sc, workers=8, allow_violation=False)
+        run.add_tlc(resc, "model check Integrals: CurvedStokes (flux of curl F through the polynomial graph over each planar "
+                          "region = circulation along its boundary; all fields of degree <= 2 fit with D = 4) on basis fields "
+                          "of degree <= 2 x RegionsCurved")
         records = []
         for n, emit in enumerate(t["emits"]):
             cfg2 = write_cfg(sc / f"int_emit{n}.cfg", init="IInit", next_="INext", constants=emit,
@@ -577,9 +596,9 @@ def main() -> int:
             if not cases:
                 raise RuntimeError("TLC emitted no cases")
             for c in cases:
-                c["curved"] = t["curved"]
+                c["thorough"] = t["curved"]
             for c in [c for c in cases if "native" in c][:1] + [c for c in cases if len(c.get("terms", ())) == 1][5::97][:4]:
-                run.sample({k: v for k, v in c.items() if k != "curved"})
+                run.sample({k: v for k, v in c.items() if k != "thorough"})
             results = list(pmap(pool, replay_any, cases, chunk=4))
             records += collect(run, results, f"emission{n}")
         rejected = set(validate_trace(run, sc, records, "all"))
@@ -597,7 +616,8 @@ def main() -> int:
     run.coverage["bounds"] = {"models": t["models"], "emissions": t["emits"], "trace_D": TRACE_D,
                               "variants": {"curve": ["std", "retime (t -> 2t)", "shift (t -> t + c)", "rev"],
                                            "surface": ["std", "retime", "rev (parameters swapped)"] +
-                                                      (["curved surface with the same boundary"] if t["curved"] else []),
+                                                      ["curved surface with the same boundary (Integrals!Graph)",
+                                                       "std / curved with the trailing zero components of the field omitted"],
                                            "box": ["std", "retime", "rev (all normals inward)"],
                                            "triangle surface": ["std (limits of the first parameter depend on the "
                                                                 "second)", "retime", "rev", "direct (coordinates as "
